@@ -7,6 +7,8 @@ spec = importlib.util.spec_from_loader("check", loader)
 chk = importlib.util.module_from_spec(spec)
 loader.exec_module(chk)
 bad = 0
+exe, err = chk.build_harness("REAL")
+print("REAL binary", "ok" if exe else err)
 for fn in sorted(os.listdir(os.path.join(chk.VERIF, "props"))):
     if fn.endswith(".json"):
         pid = fn[:-5]
